@@ -13,7 +13,7 @@ from ..repo import AnalysisError, norm
 from ..partition import MiniInterp, Opaque, FRESH
 
 LEVEL = "other"
-TECHNIQUE = "stream-filter effect table by branch partition over token types; idiom check of the rebuild loop; small type inference on the sort key"
+TECHNIQUE = ('stream-filter effect table by branch partition over token types; idiom check of the rebuild loop; evaluation of the sort key on representative attribute keys (prefix and totality)')
 CLAIM = ('For every token type the filter yields the token once; only start/empty tags get a new attribute '
          'mapping, which is filled by inserting each original (key, value) pair under its own key in sorted '
          "order, so nothing is lost, merged or altered; the sort key replaces a None namespace by '' before "
